@@ -127,7 +127,10 @@ package jhttp
 // given status; otherwise the status is 500 (and the body is the error text).
 //@ func writeJSON
 //@   requires w != nil
-//@   modifies whStatus(w), whCalls(w), wbCalls(w), wbJSON(w)
+//@   modifies whStatus(w), whCalls(w), wbCalls(w), wbJSON(w), wjObj(w)
+//@   at return#1 ghostset wjObj(w) = obj
+//@   at return#2 ghostset wjObj(w) = obj
+//@   ensures[C18:object] wjObj(w) == obj
 //@   ensures[C19:status] marshalable(obj) ==> whStatus(w) == code && wbJSON(w)
 //@   ensures[C19:unmarshalable] !marshalable(obj) ==> whStatus(w) == 500
 //@   ensures[C19:one-header] whCalls(w) == old(whCalls(w)) + 1
@@ -145,3 +148,70 @@ package jhttp
 //@   ensures[C19:one-call] called("call.CallResult#1") ==> clientCalls == old(clientCalls) + 1
 //@   ensures[C19:not-found] called("call.CallResult#1") && callres("call.CallResult#1", 0, "error") != nil && marshalable(callres("call.CallResult#1", 0, "error")) ==> whStatus(w) == (errorCodeSpec(callres("call.CallResult#1", 0, "error")) == -32601 ? 404 : 500) && wbJSON(w)
 //@   ensures[C19:ok] called("call.CallResult#1") && callres("call.CallResult#1", 0, "error") == nil ==> whStatus(w) == 200 || whStatus(w) == 500
+
+// ---------------------------------------------------------------------------
+// Bridge (C18)
+// ---------------------------------------------------------------------------
+
+// wjObj(w): ghost - the object most recently handed to writeJSON for w.
+//@ ghost wjObj(Iface) Iface
+
+// A parse hook reports either an error or a list without nil members (what
+// jrpc2.ParseRequests guarantees; a documented obligation of the hook).
+//@ role field Bridge.parseReq
+//@   ensures result1 != nil ==> result0 == nil
+//@   ensures forall(i int, 0 <= i && i < len(result0) ==> result0[i] != nil)
+
+//@ pure bridgeOK(b Bridge) Bool = wfClient(b.local.Client) && !held(fieldaddr(b.local.Client, mu))
+
+// The gate: without a parse hook, anything but POST is 405 and anything but
+// application/json (utf-8) is 415 - in both cases nothing is forwarded. A
+// failure of the request proper is 500.
+//@ func (Bridge).ServeHTTP
+//@   requires w != nil && req != nil && req.URL != nil && req.Header != nil && bridgeOK(b) && (b.getter != nil ==> b.getter.local.Client != nil)
+//@   modifies whStatus(w), whCalls(w), wbCalls(w), wbJSON(w), wjObj(w), clientCalls, clientBatches, monitor(Client, b.local.Client), held(fieldaddr(b.local.Client, mu)), chSends, slotId, jrpc2.Response.err, jrpc2.Response.result, jrpc2.Response.id, fired
+//@   ensures[C18:method-gate] !called("call.ServeHTTP#1") && b.parseReq == nil && req.Method != "POST" ==> whStatus(w) == 405 && clientBatches == old(clientBatches) && clientCalls == old(clientCalls)
+//@   ensures[C18:type-gate] called("call.ParseMediaType#1") && callres("call.ParseMediaType#1", 0, "string") != "application/json" ==> whStatus(w) == 415 && clientBatches == old(clientBatches)
+//@   ensures[C18:charset-gate] called("call.ParseMediaType#1") && in(callres("call.ParseMediaType#1", 1, "map[string]string"), "charset") && lookup(callres("call.ParseMediaType#1", 1, "map[string]string"), "charset") != "utf-8" && lookup(callres("call.ParseMediaType#1", 1, "map[string]string"), "charset") != "utf8" ==> whStatus(w) == 415 && clientBatches == old(clientBatches)
+//@   ensures[C18:failure-is-500] called("call.serveInternal#1") && callres("call.serveInternal#1", 0, "error") != nil ==> whStatus(w) == 500
+//@   ensures[C18:one-batch-at-most] clientBatches == old(clientBatches) || clientBatches == old(clientBatches) + 1
+//@   ensures[C18:unlocked] !held(fieldaddr(b.local.Client, mu))
+
+// One HTTP request: statically invalid members are answered locally, one error
+// object each, and never forwarded; the valid ones go out in exactly one Batch
+// (none if there are none); inboundID holds the original id of every call, in
+// order, so response i is re-labelled with the id of call i; no response
+// objects at all is 204 with no body, otherwise the objects are encoded.
+//@ func (Bridge).serveInternal
+//@   requires w != nil && req != nil && bridgeOK(b)
+//@   modifies whStatus(w), whCalls(w), wbCalls(w), wbJSON(w), wjObj(w), clientBatches, monitor(Client, b.local.Client), held(fieldaddr(b.local.Client, mu)), chSends, slotId, jrpc2.Response.err, jrpc2.Response.result, jrpc2.Response.id, fired
+//@   ensures[C18:parse-failure-runs-nothing] callres("call.parseHTTPRequest#1", 1, "error") != nil ==> result != nil && clientBatches == old(clientBatches) && whCalls(w) == old(whCalls(w))
+//@   ensures[C18:one-batch-iff-valid-members] clientBatches == old(clientBatches) + (called("call.Batch#1") ? 1 : 0)
+//@   ensures[C18:no-content] result == nil && !called("call.encodeResponses#1") ==> whStatus(w) == 204 && wbCalls(w) == old(wbCalls(w)) && whCalls(w) == old(whCalls(w)) + 1
+//@   ensures[C18:unlocked] !held(fieldaddr(b.local.Client, mu))
+//@   at call.Batch#1 assert[C18:only-valid-forwarded] len(spec) >= 1 && len(results) + len(spec) == len(jreq)
+//@   at call.WriteHeader#1 assert[C18:204-only-if-nothing] len(results) == 0
+//@   at call.encodeResponses#1 assert[C18:encode-something] len(results) >= 1
+//@   loop 1 invariant len(inboundID) == cntCalls(elems(spec), len(spec)) && len(results) + len(spec) == rangeindex + 1 && whCalls(w) == old(whCalls(w))
+//@   loop 1 invariant forall(k int, 0 <= k && k < len(inboundID) ==> inboundID[k] != "")
+//@   loop 1 invariant clientBatches == old(clientBatches) && !held(fieldaddr(b.local.Client, mu))
+//@   loop 2 invariant len(results) >= rangeindex + 1 && !held(fieldaddr(b.local.Client, mu)) && clientBatches == old(clientBatches) + 1 && whCalls(w) == old(whCalls(w))
+
+//@ func (Bridge).parseHTTPRequest
+//@   requires req != nil
+//@   ensures result1 != nil ==> result0 == nil
+//@   ensures forall(i int, 0 <= i && i < len(result0) ==> result0[i] != nil)
+
+// A single response object is sent alone, anything else as an array; status 200.
+//@ func (Bridge).encodeResponses
+//@   requires w != nil
+//@   modifies whStatus(w), whCalls(w), wbCalls(w), wbJSON(w), wjObj(w)
+//@   ensures[C18:single-object] len(rsps) == 1 ==> wjObj(w) == boxof(rsps[0], "json.RawMessage")
+//@   ensures[C18:array-otherwise] len(rsps) != 1 ==> wjObj(w) == boxof(rsps, "[]json.RawMessage")
+//@   ensures[C18:one-header] whCalls(w) == old(whCalls(w)) + 1 && result == nil
+
+// marshalError: the error object of a statically invalid member, under the
+// member's own id text (null when it has none).
+//@ func marshalError
+//@   requires req != nil
+//@   ensures result1 != nil ==> result0 == nil
